@@ -199,6 +199,28 @@ def run(ctx, chk):
                 chk.violation("C07.R4", unit0, "writes-" + "+".join(sorted(set(bad))), f"{fn['name']} modifies {sorted(set(bad))}", where)
             else:
                 chk.ok("C07.R4", f"{unit}:regs", f"writes within {sorted(allowed)}")
+            if sp["flags"]:
+                # CMPS/SCAS define the six status flags only: every other bit of FLAGS (DF, IF, TF, reserved) keeps its
+                # value -- in particular DF, which a repeated compare steps by
+                fb = s.regs["flag"].bits
+                status = {FBIT[x] for x in ("CF", "PF", "AF", "ZF", "SF", "OF")}
+                lost = []
+                for i, b_ in enumerate(fb):
+                    if i in status or b_ == ("c", "flag", i):
+                        continue
+                    if i == FBIT["DF"] and b_ == df:
+                        continue  # the run assumed DF = df and the bit still has that value
+                    lost.append(i)
+                names_ = {v: k for k, v in FBIT.items()}
+                definite = [i for i in lost if fb[i] in (0, 1) or fb[i][0] in ("c", "n")]
+                if definite:
+                    chk.violation("C07.R4", unit0, "flag-frame:" + "+".join(names_.get(i, f"bit{i}") for i in definite),
+                                  f"{fn['name']} (DF={df}) changes FLAGS bit(s) {[names_.get(i, i) for i in definite]} besides the six status flags: "
+                                  f"{'a repeated compare with DF=1 continues in the wrong direction' if FBIT['DF'] in definite else 'control flags are not defined by a compare'}", where)
+                elif lost:
+                    chk.undecided_("C07.R4", f"{unit}:flag-frame", f"bits {lost} of FLAGS not tracked as copies")
+                else:
+                    chk.ok("C07.R4", f"{unit}:flag-frame", "only CF,PF,AF,ZF,SF,OF change")
             if writes and not sp["dst_w"]:
                 chk.violation("C07.R4", unit0, "stores-to-memory", f"{fn['name']} stores to memory ({writes[0].key})", where)
             elif sp["dst_w"] and not writes:
